@@ -139,6 +139,16 @@ VH_MAIN
         vh_assert(stack.top2 == stack.size && tail_users == 0, "tail completely free after the last thread");
         vh_assert(inv(), "representation invariant preserved");
     }
+#elif OP == 7    /* a first-time factorization with a caller-supplied workspace starts from an empty stack,
+                    whatever an earlier call left behind (also C18) */
+    {
+        int_t lw = vh_int_in(1, SIZE);
+        pdgstrf_SetupSpace(buf + base, lw);
+        vh_assert(whichspace == USER, "user-workspace mode selected");
+        vh_assert(stack.size == lw && stack.top1 == 0 && stack.top2 == lw && stack.used == 0 && stack.array == (void *)(buf + base),
+                  "every field of the stack is re-initialised: nothing of the previous call's bookkeeping survives");
+        vh_assert(tail_users == 0, "no thread holds tail storage at the start");
+    }
 #elif OP == 5    /* first-time allocation of an L/U array through p?gstrf_expand (with alignment fix-up) */
     {
         static GlobalLU_t Glu;
